@@ -953,6 +953,7 @@ impl MDL {
             for j in lod.mesh_index..lod.mesh_index + lod.mesh_count {
                 let vertex_count = self.model_data.meshes[j as usize].vertex_count;
                 let index_count = self.model_data.meshes[j as usize].index_count;
+                let start_index = self.model_data.meshes[j as usize].start_index;
 
                 let mut total_vertex_stride: u32 = 0;
                 for i in 0..self.model_data.meshes[j as usize].vertex_stream_count as usize {
@@ -961,7 +962,10 @@ impl MDL {
                 }
 
                 total_vertex_buffer_size += vertex_count as u32 * total_vertex_stride;
-                total_index_buffer_size += index_count * size_of::<u16>() as u32;
+                // meshes keep their own (aligned) start index, the section has to reach the end of
+                // the last one
+                total_index_buffer_size = total_index_buffer_size
+                    .max((start_index + index_count) * size_of::<u16>() as u32);
             }
 
             // TODO: this can definitely be written better
